@@ -72,6 +72,9 @@ class Lower:
     def idv(self, e):
         if e[0] == 'id' and e[1] in self.ids:
             return self.ids[e[1]]
+        i = self.idinit(e)               # the expression a name would have stood for (naming an id emits nothing)
+        if i is not None:
+            return i
         self.bad('not an id the function has named', e)
 
     def cond(self, e):
